@@ -63,6 +63,13 @@ class InjectedError(Exception):
     """raised by the recorder instead of performing the chosen call"""
 
 
+class Runaway(BaseException):
+    """the tuning loop does not come to an end (harness guard, reported as a harness error)"""
+
+
+MAX_CALLS = 6000
+
+
 # ---------------------------------------------------------------------------------
 # recorder
 
@@ -79,6 +86,7 @@ class Dialogue:
         self.rid_of = {}  # id(result dict) -> rid
         self._attributed = set()  # ids of exceptions already attributed to a (nested) call
         self.active = True
+        self.runaway = False
         self.resume_status = []  # (call index, trial, backend status just before `resume_trial`)
         self.probe = None  # optional: number of busy workers in the backend's truth, sampled at every call
 
@@ -114,6 +122,9 @@ class Dialogue:
         """record `call`, perform fn(), record its answer. Returns fn()'s value."""
         if not self.active:
             return fn()
+        if len(self.entries) >= MAX_CALLS and not self.runaway:
+            self.runaway = True
+            raise Runaway(f"more than {MAX_CALLS} calls")
         e = {"call": call, "ans": None}
         if self.probe is not None:
             e["_occ"] = self.probe()
@@ -450,6 +461,9 @@ class ScriptBackend(TrialBackend):
             return
         run = t["run"]
         end_r = run.last if run.fail_at is None else run.fail_at
+        if run.next_r > end_r:  # everything was reported at an earlier poll: the end becomes visible now
+            self._end(t, run)
+            return
         n = self.rng.randint(0, self.p.get("max_batch", 2))
         for _ in range(n):
             if run.next_r > end_r:
@@ -813,6 +827,9 @@ def run_loop(spec):
         with contextlib.redirect_stdout(io.StringIO()):
             try:
                 tuner.run()
+            except Runaway as ex:
+                ex.dlg = dlg
+                raise
             except BaseException as ex:  # noqa
                 raised = type(ex).__name__ + (":" + str(ex) if isinstance(ex, ValueError) and "failed" in str(ex) else "")
                 raised_obj = ex
